@@ -20,10 +20,15 @@ struct Log {
     fail_at: Option<usize>,
     failed: bool,
     calls_after_error: usize,
+    /// while set, calls are neither recorded nor failed (the warm-up diff of a re-used adapter)
+    muted: bool,
 }
 
 impl Log {
     fn rec(&mut self, e: Ev) -> Result<(), usize> {
+        if self.muted {
+            return Ok(());
+        }
         if self.failed {
             self.calls_after_error += 1;
         }
@@ -79,7 +84,7 @@ impl DiffHook for HookD {
     }
 }
 
-pub const STACKS: [&str; 13] = [
+pub const STACKS: [&str; 15] = [
     "H",
     "Replace<H>",
     "Compact<H>",
@@ -93,10 +98,12 @@ pub const STACKS: [&str; 13] = [
     "NoFinishHook<&mut H>",
     "Replace<NoFinishHook<&mut H>>",
     "Replace<Compact<H>>",
+    "Replace<H> RE-USED (the same adapter object completed another diff before)",
+    "Replace<NoFinishHook<H>> RE-USED (the same adapter object completed another diff before)",
 ];
 
 fn has_no_finish(stack: usize) -> bool {
-    matches!(stack, 4 | 8 | 9 | 10 | 11)
+    matches!(stack, 4 | 8 | 9 | 10 | 11 | 14)
 }
 
 /// the owned-hook stack whose event list this stack must reproduce
@@ -104,7 +111,8 @@ fn has_no_finish(stack: usize) -> bool {
 fn reference_stack(stack: usize) -> usize {
     match stack {
         4 | 5 | 10 => 0,
-        6 | 8 | 11 => 1,
+        6 | 8 | 11 | 13 => 1,
+        14 => 8,
         9 => 2,
         7 => 3,
         s => s,
@@ -151,9 +159,34 @@ fn drive<D: DiffHook<Error = usize>>(d: &mut D, drv: &Driver, a: &[u8], b: &[u8]
     }
 }
 
-fn run_stack<H: DiffHook<Error = usize> + Clone>(stack: usize, h: &H, drv: &Driver, a: &[u8], b: &[u8]) -> Result<(), usize> {
+/// A successful diff through `d` that the recording hook does not see (it is muted meanwhile): the
+/// adapter object has then been used before.  Which diff: the reverse one, an identical pair, or a
+/// fixed small pair - so that the warm-up ends at other positions than the measured diff starts.
+fn warm_up<D: DiffHook<Error = usize>>(d: &mut D, log: &Rc<RefCell<Log>>, a: &[u8], b: &[u8]) {
+    log.borrow_mut().muted = true;
+    let alg = ALGS[(a.len() + 2 * b.len()) % 3];
+    let r = match (a.len() + b.len()) % 3 {
+        0 => diff(alg, d, b, 0..b.len(), a, 0..a.len()),
+        1 => diff(alg, d, a, 0..a.len(), a, 0..a.len()),
+        _ => diff(alg, d, &[1u8, 2, 3][..], 0..3, &[1u8, 2, 3, 4][..], 0..4),
+    };
+    log.borrow_mut().muted = false;
+    assert!(r.is_ok(), "harness: the muted warm-up diff cannot fail");
+}
+
+fn run_stack<H: DiffHook<Error = usize> + Clone>(stack: usize, h: &H, log: &Rc<RefCell<Log>>, drv: &Driver, a: &[u8], b: &[u8]) -> Result<(), usize> {
     let mut h = h.clone();
     match stack {
+        13 => {
+            let mut r = Replace::new(h);
+            warm_up(&mut r, log, a, b);
+            drive(&mut r, drv, a, b)
+        }
+        14 => {
+            let mut r = Replace::new(NoFinishHook::new(h));
+            warm_up(&mut r, log, a, b);
+            drive(&mut r, drv, a, b)
+        }
         0 => drive(&mut h, drv, a, b),
         1 => drive(&mut Replace::new(h), drv, a, b),
         2 => drive(&mut Compact::new(h, a, b), drv, a, b),
@@ -185,14 +218,15 @@ fn execute(stack: usize, with_replace_override: bool, fail_at: Option<usize>, dr
         ..Default::default()
     }));
     let l2 = log.clone();
+    let l3 = log.clone();
     if let Driver::AlgDeadline(_, k) = drv {
         similar::verif_hooks::set_clock(similar::verif_hooks::Clock::Fuel(*k));
     }
     let r = guard(move || {
         if with_replace_override {
-            run_stack(stack, &HookR(l2), drv, a, b)
+            run_stack(stack, &HookR(l2), &l3, drv, a, b)
         } else {
-            run_stack(stack, &HookD(l2), drv, a, b)
+            run_stack(stack, &HookD(l2), &l3, drv, a, b)
         }
     });
     similar::verif_hooks::set_clock(similar::verif_hooks::Clock::Off);
@@ -439,6 +473,41 @@ pub fn families() -> Vec<Box<dyn Family>> {
                 out.nontrivial(&(alg_name(alg), a.len(), b.len(), idx));
                 out.count("huge_protocol_cases");
                 check_case_opt(&Driver::Alg(alg), alg_name(alg), &a, &b, &[0, 1, 3], false, out);
+            },
+        ),
+        family(
+            "patience_gaps",
+            "a few items that are unique on both sides (anchors) separated by LONG GAPS: 0..160 non-matching filler items on each side in front of every anchor (fillers from two small alphabets that are disjoint or overlap, so the gaps hold nothing / little in common) x 3 algorithms x {H, Replace<H>, Compact<Replace<H>>, Replace<NoFinishHook<H>>, re-used Replace<H>}: clean run + failing call indices",
+            false,
+            1,
+            |cfg| cfg.n(120, 3_000),
+            |idx, cfg, out| {
+                let mut rng = Rng::for_case(cfg.seed, "c08.patience_gaps", idx);
+                let anchors = 1 + rng.below(4);
+                let max_gap = if cfg.tiny { 3 } else { *rng.pick(&[10usize, 70, 100, 160]) };
+                let overlap = rng.chance(1, 3);
+                let (mut a, mut b) = (Vec::new(), Vec::new());
+                for k in 0..anchors {
+                    for _ in 0..rng.below(max_gap + 1) {
+                        a.push(1 + rng.below(3) as u8);
+                    }
+                    for _ in 0..rng.below(max_gap + 1) {
+                        b.push(if overlap { 2 + rng.below(3) as u8 } else { 11 + rng.below(3) as u8 });
+                    }
+                    a.push(200 + k as u8);
+                    b.push(200 + k as u8);
+                }
+                if rng.chance(1, 2) {
+                    for _ in 0..rng.below(max_gap + 1) {
+                        a.push(1 + rng.below(3) as u8);
+                    }
+                    b.push(11);
+                }
+                let alg = if idx % 4 == 3 { ALGS[rng.below(3)] } else { Algorithm::Patience };
+                out.sample(|| format!("alg={} old={} new={}", alg_name(alg), fmt_seq(&a), fmt_seq(&b)));
+                out.nontrivial(&(alg_name(alg), &a, &b));
+                out.count("long_gap_cases");
+                check_case_opt(&Driver::Alg(alg), alg_name(alg), &a, &b, &[0, 1, 3, 8, 13], a.len() + b.len() <= 60, out);
             },
         ),
         family(
